@@ -60,6 +60,11 @@ pub fn gen_edits(rng: &mut Rng, text: &str, n: usize) -> String {
             // a keystroke at the very end of the document (the last token's look-ahead is the end of text)
             let key = *rng.pick(&["'", "'", "a", "/", "=", "<", ":", "0", "x", "\\", "n", " ", "\n", "_", "1", "\u{e9}"]);
             (cur.len(), cur.len(), key.to_string())
+        } else if rng.chance(1, 10) {
+            // an insertion of nothing but "white space" (for SPL, or only for Unicode) between two tokens or lines
+            const WS: &[&str] = &[" ", "\n", "\t", "\r\n", "\u{a0}", "\u{c}", "\u{b}", "\u{85}", "\u{2028}", "\u{3000}", "    "];
+            let (lo, _) = gen_text::char_range(rng, &cur);
+            (lo, lo, (0..rng.range(1, 3)).map(|_| *rng.pick(WS)).collect::<String>())
         } else if rng.chance(2, 3) {
             token_edit(rng, &cur)
         } else {
